@@ -85,7 +85,9 @@ type c9thread struct {
 	step           int
 }
 
-func isRefusal(err error) bool { return err != nil && strings.Contains(err.Error(), "process already pending") }
+func isRefusal(err error) bool {
+	return err != nil && strings.Contains(err.Error(), "process already pending")
+}
 
 var c9hookOnce sync.Once
 
@@ -103,9 +105,10 @@ func c9installHook() {
 const c9wait = 8 * time.Second
 
 // C09.race <sid:role:outcome,…> <schedule of thread indices>
-//   k-th occurrence of a thread index = its k-th step: arrive (call Execute, run to the admission hook),
-//   enter (pass admission; if admitted, be driven into Run), finish (end the run by its outcome ok|fail|cancel).
-//   => st=<I|Y|R|X|D per thread>;max=<sid=max concurrently running>;pend=<sid=0|1>;leak=<sid=live subs+streams, quiescent sids>
+//
+//	k-th occurrence of a thread index = its k-th step: arrive (call Execute, run to the admission hook),
+//	enter (pass admission; if admitted, be driven into Run), finish (end the run by its outcome ok|fail|cancel).
+//	=> st=<I|Y|R|X|D per thread>;max=<sid=max concurrently running>;pend=<sid=0|1>;leak=<sid=live subs+streams, quiescent sids>
 func c9race(a []string) string {
 	c9installHook()
 	w := newC9World()
@@ -237,7 +240,8 @@ func c9race(a []string) string {
 }
 
 // C09.sess <sid:role:nproc:outcome,…>   sessions run one after another on ONE coordinator/communication
-//   => per session ret/sub/unsub/close/live/streams/open/runs/stops/pend  joined by ','
+//
+//	=> per session ret/sub/unsub/close/live/streams/open/runs/stops/pend  joined by ','
 func c9sess(a []string) string {
 	c9installHook()
 	w := newC9World()
@@ -384,8 +388,9 @@ func c9sess(a []string) string {
 }
 
 // C09.stress <n>   n goroutines call Execute for ONE session id at the same time, with no schedule control (the
-//   hook lets everybody through). The admitted session(s) stay alive until every other request has returned.
-//   => admitted=<k>,refused=<n-k>   (under -race this is also what exposes unsynchronised accesses)
+//
+//	hook lets everybody through). The admitted session(s) stay alive until every other request has returned.
+//	=> admitted=<k>,refused=<n-k>   (under -race this is also what exposes unsynchronised accesses)
 func c9stress(a []string) string {
 	c9installHook()
 	n := int(u64(a[0]))
